@@ -24,10 +24,11 @@ RULES = {
     "R9.2": "every restored attribute is read from the field path into which solver_state stores that same attribute",
     "R9.3": "every save(step) in solve has step == self.iteration and follows the increment and all loop-carried writes of that iteration on every path",
     "R9.4": "save / _setup_checkpointing / is_checkpointing_enabled / solver_state / has_full_config write no loop-carried or saved attribute",
+    "R9.6": "the restore template agrees in kind with what is saved: a fresh solver's solver_state is the StandardRestore template and Orbax casts every restored leaf to the template leaf's type, so a scalar field annotated `float` (`int`) in the State/Info dataclass is never written from an int (float) expression outside _restore_state_from_checkpoint",
     "R9.5": "save() snapshots self.solver_state and hands exactly that snapshot, with its own step argument, to checkpoint_manager.save",
 }
 ASSUMPTIONS = [
-    "Orbax StandardSave/StandardRestore round-trip a pytree of arrays and scalars field by field",
+    "Orbax StandardSave/StandardRestore round-trip a pytree of arrays and scalars field by field; a restored leaf takes the type of the template leaf (an int template truncates a saved float)",
     "attribute effects are tracked on `self` only (aliases of solver state held in locals are not followed)",
 ]
 
@@ -147,7 +148,9 @@ def run(ctx: Context, col) -> None:
                     f"statement is not `self.<attr> = <param>.<path>`: {norm_text(rother[0])}", text=norm_text(rother[0]))
         _save_placement(ctx, cls, loop, L, col)
         _no_state_writes(ctx, cls, L | set(spaths), col)
+        template_kinds(ctx, cls, col, "R9.6")
     _save_body(ctx, col)
+    col.floor("R9.6", 10)
     col.floor("R9.1", 14)
     col.floor("R9.2", 17)
     col.floor("R9.3", 10)
@@ -264,3 +267,93 @@ def _save_body(ctx, col):
             if not good:
                 ok, why = False, f"payload `{ast.unparse(payload) if payload is not None else None}` is not the solver_state snapshot"
     col.add("R9.5", "CheckpointMixin.save", owner.module.relpath, fn.lineno, ok, why, text="save payload and label")
+
+
+# ------------------------------------------------------------------------------------------------ R9.6
+def _scalar_kind(ann: ast.AST):
+    src = ast.unparse(ann)
+    if src in ("int", "float"):
+        return src
+    if src.startswith("Float[") or src.split(" | ")[0] in ("ValueFunction",):
+        return "float64 array"
+    return None
+
+
+NARROW = ("float32", "float16", "bfloat16", "int64", "int32", "int16", "int8", "uint8", "int", "bool")
+
+
+def expr_kind(e: ast.AST, field_kinds: dict):
+    """'int' / 'float' / None (undetermined) of a scalar expression, from literals and annotated state fields."""
+    if isinstance(e, ast.Call):
+        for kw in e.keywords:
+            if kw.arg == "dtype" and ast.unparse(kw.value).split(".")[-1] in NARROW:
+                return ast.unparse(kw.value).split(".")[-1] + " array"
+        if isinstance(e.func, ast.Attribute) and e.func.attr == "astype" and e.args and ast.unparse(e.args[0]).split(".")[-1] in NARROW:
+            return ast.unparse(e.args[0]).split(".")[-1] + " array"
+    if isinstance(e, ast.Constant):
+        if isinstance(e.value, bool):
+            return None
+        return "int" if isinstance(e.value, int) else "float" if isinstance(e.value, float) else None
+    if isinstance(e, ast.UnaryOp) and isinstance(e.op, (ast.USub, ast.UAdd)):
+        return expr_kind(e.operand, field_kinds)
+    if is_self_attr(e):
+        return field_kinds.get(e.attr)
+    if isinstance(e, ast.Call) and isinstance(e.func, ast.Name) and e.func.id in ("int", "len", "float"):
+        return "float" if e.func.id == "float" else "int"
+    if isinstance(e, ast.BinOp):
+        a, b = expr_kind(e.left, field_kinds), expr_kind(e.right, field_kinds)
+        if isinstance(e.op, ast.Div):
+            return "float" if a and b else None
+        if a == "float" or b == "float":
+            return "float" if a and b else None
+        return "int" if a == "int" and b == "int" else None
+    return None
+
+
+def template_kinds(ctx, cls, col, rule):
+    """One instance per scalar leaf of solver_state: every write of its source attribute outside the
+    restore method has the kind the State/Info dataclass declares."""
+    so, sfn, spaths, ctor_calls = save_paths(ctx, cls)
+    ro, rfn, _rp, _x = restore_paths(ctx, cls)
+    declared = {}
+    for call, _prefix in ctor_calls:
+        dc = ctx.ct.class_of_dotted(ctx.ct.resolve_name(so.module, call.func.id)) if isinstance(call.func, ast.Name) else None
+        if dc is None:
+            continue
+        fields = ctx.ct.all_fields(dc)
+        for kw in call.keywords:
+            if is_self_attr(kw.value) and kw.arg in fields:
+                k = _scalar_kind(fields[kw.arg][1].annotation)
+                if k:
+                    declared[kw.value.attr] = (k, dc.name, kw.arg)
+    kinds = {a: k for a, (k, _d, _f) in declared.items()}
+    for attr, (k, dcname, fname) in sorted(declared.items()):
+        bad = None
+        n = 0
+        for owner in ctx.ct.mro(cls):
+            for fn in owner.methods.values():
+                if fn is rfn:
+                    continue
+                for st in ast.walk(fn):
+                    val = None
+                    if isinstance(st, ast.Assign) and any(is_self_attr(t, attr) for t in st.targets):
+                        val = st.value
+                    elif isinstance(st, ast.AugAssign) and is_self_attr(st.target, attr):
+                        val = st.value
+                    elif isinstance(st, ast.AnnAssign) and is_self_attr(st.target, attr) and st.value is not None:
+                        val = st.value
+                    if val is None:
+                        continue
+                    n += 1
+                    got = expr_kind(val, kinds)
+                    if k == "float64 array" and not (got or "").endswith(" array"):
+                        got = None
+                    if got and got != k and bad is None:
+                        bad = (owner, fn, st, got)
+        file, line = (bad[0].module.relpath, bad[2].lineno) if bad else (so.module.relpath, sfn.lineno)
+        col.add(rule, f"{cls.name}.{attr}", file, line, bad is None,
+                f"`{attr}` ({dcname}.{fname}: {k}): {n} writes outside the restore method, none of the other kind" if bad is None else
+                f"`{norm_text(bad[2])}` in {bad[0].name}.{bad[1].name} writes an {bad[3]} into `{attr}`, declared `{fname}: {k}` in {dcname}: "
+                f"on a fresh solver this value is the StandardRestore template leaf, and Orbax casts the restored leaf to the template's type "
+                f"({'the counter comes back as a float' if k == 'int' else 'the saved float64 value is truncated on resume'})",
+                text=f"template kind {attr}")
